@@ -215,12 +215,17 @@ void FaceSet::identifyExternalFace(void) {
     }
 }
 
+bool CmpFacesById::operator()(const Face_SP &lhs, const Face_SP &rhs) const {
+    if (lhs->id() != rhs->id()) return lhs->id() < rhs->id();
+    return lhs < rhs;
+}
+
 TreePlacements FaceSet::listAllPossibleTreePlacements(Tree_SP tree) {
     // First find the "core root", i.e. the Node in the underlying Graph where
     // the tree is supposed to reattach.
     Node_SP coreRoot = m_graph->getNode(tree->getRootNodeID());
     // Now get the vector of possible Faces, i.e. those Faces that contain this Node.
-    std::set<Face_SP> possibleFaces = m_facesByMemberNodeId.at(coreRoot->id());
+    FacesOrderedById possibleFaces = m_facesByMemberNodeId.at(coreRoot->id());
     // We can then ask each Face to generate all possible placements into it, and compile
     // the results.
     TreePlacements tps;
